@@ -222,6 +222,13 @@ Definition mon_c04 (c : Committee) (evs : list (list N * Event)) (obs : list Obs
 (* ---- C15 (core part): no step of the real node panicked ---- *)
 Definition mon_c15 (obs : list Obs) : bool := forallb (fun ob => negb (rkind_eqb (ob_res ob) KPanic)) obs.
 
+(* ---- C06 (enabling, on clean happy-path leader scenarios only): the node that leads round r and was given the round r-1
+   proposal and every other member's vote for it -- in any order, nothing else interfering -- has asked its proposer
+   for a round-r block carrying a QC of round r-1 ---- *)
+Definition mon_c06_make (obs : list Obs) (r : N) : bool :=
+  existsb (fun m => match m with (mr, q, t) => (mr =? r) && (qc_round q + 1 =? r) && match t with None => true | Some _ => false end end)
+          (makes_of (outs_of obs)).
+
 (* The verdict of one step-mode case, as a list of numbers (see tools/props.py for the index map):
    [all-agree; net; commit; mem; proposer; result; state; hint; first differing step (0 = none);
     C02; C03; C03 on the model's ghost history; C04; C05; C08; C09; C10; C15; C19] *)
